@@ -56,7 +56,7 @@ let process line =
             let io = List.map (function [a; b; e] -> ((bool_of_tok a, bool_of_tok b), z_of_string e) | _ -> failwith "o") (chunk 3 outs) in
             let m = run_ctud lo hi init tr in
             String.concat " " (List.concat_map (fun ((a, b), e) -> [tok_of_bool a; tok_of_bool b; string_of_z e]) m),
-            judge_ctud lo hi io
+            judge_ctud lo hi init tr io
           | "rtrig" | "ftrig" ->
             let tr = List.map bool_of_tok calls and io = List.map bool_of_tok outs in
             if kind = "rtrig" then b_out (run_rtrig tr), judge_rtrig tr io
